@@ -63,6 +63,7 @@ PROPS["C12"] = {
     "configs": BOTH,
     "thorough_configs": ("release",),
     "rules": [
+        ("R-CLONE-IDENTITY", rp2.rule_clone_identity, {"group": ('stats',)}),
         ("R-DOF-GUARD", _dof_guard, {}),
         ("R-STATS-ERR-MAP", rules_stats.rule_stats_err_map, {}),
         # "... or the model errs while the statistics are computed ... returns Err, without panicking"
@@ -128,6 +129,7 @@ PROPS["C01"] = {
 PROPS["C02"] = {
     "configs": BOTH,
     "rules": [
+        ("R-CLONE-IDENTITY", rp2.rule_clone_identity, {"group": ('problem',)}),
         ("R-RESID-TERM", rp.rule_resid_term, {}),
         ("R-PURE-PROJECTION", rp.rule_pure_projection, {}),
         ("R-VEC-COLMAJOR", rp.rule_vec_colmajor, {}),
@@ -179,6 +181,7 @@ PROPS["C04"] = {
 PROPS["C06"] = {
     "configs": BOTH,
     "rules": [
+        ("R-CLONE-IDENTITY", rp2.rule_clone_identity, {"group": ('weights', 'problem', 'builder')}),
         ("R-WEIGHT-SITES", rp2.rule_weight_sites, {}),
         ("R-ROW-SCALING", rp2.rule_row_scaling, {}),
         ("R-DATA-WEIGHT-ONCE", rp2.rule_data_weight_once, {}),
@@ -218,6 +221,7 @@ PROPS["C07"] = {
 PROPS["C10"] = {
     "configs": BOTH,
     "rules": [
+        ("R-CLONE-IDENTITY", rp2.rule_clone_identity, {"group": ('problem',)}),
         ("R-NO-HISTORY", rp2.rule_no_history, {}),
         ("R-WHO-WRITES", rp2.rule_who_writes, {}),
         ("R-DEF-INIT", rp2.rule_def_init, {}),
@@ -243,6 +247,7 @@ PROPS["C11"] = {
 PROPS["C13"] = {
     "configs": BOTH,
     "rules": [
+        ("R-CLONE-IDENTITY", rp2.rule_clone_identity, {"group": ('stats',)}),
         ("R-MODEL-JAC", rs2.rule_model_jac, {}),
         ("R-COVARIANCE", rs2.rule_covariance, {}),
         # "σ² is the reduced χ²": ‖r_w‖² over the degrees of freedom N−(M+P) of the model counts
@@ -259,6 +264,7 @@ PROPS["C13"] = {
 PROPS["C14"] = {
     "configs": BOTH,
     "rules": [
+        ("R-CLONE-IDENTITY", rp2.rule_clone_identity, {"group": ('stats',)}),
         ("R-BAND", rs2.rule_band, {}),
         ("R-DOF-GUARD", _dof_guard, {}),
         ("R-MODEL-JAC", rs2.rule_model_jac, {}),
@@ -284,6 +290,7 @@ PROPS["C15"] = {
 PROPS["C18"] = {
     "configs": BOTH,
     "rules": [
+        ("R-CLONE-IDENTITY", rp2.rule_clone_identity, {"group": ('builder', 'weights')}),
         ("R-PROBLEM-BUILD-TABLE", rp2.rule_problem_build_table, {}),
         ("R-INITIAL-SET-PARAMS", rp2.rule_initial_set_params, {}),
         ("R-SETTER-FRAME", rp2.rule_setter_frame, {}),
